@@ -673,7 +673,3 @@ pub(crate) fn run_entry() {
     }
     let _ = rep.finish();
 }
-
-// "stalled snapshot" scenarios at the BMP boundary (needs a hand-built Global, hence a descendant of `event`)
-#[path = "/verif/harness/daemon/c18s.rs"]
-mod c18s;
